@@ -215,14 +215,23 @@ CHECKS = {
         note="Outside: file discovery (glob), table parsing and printing, and everything about the FITPACK spline itself (that it "
              "reproduces grid nodes, convergence under refinement: library numerics / asymptotic statement).",
         design="3/C19 (as built: A.4)"),
+    "C17": dict(
+        engine="symnum+z3",
+        technique="symbolic execution of the real readers / writer on files whose numeric fields are opaque tokens (module-global `float` "
+                  "rebound to a token->symbol map, f-string formatting prints tokens); z3 equality of every field of the parsed objects with "
+                  "the symbol written at that place",
+        text="Partial (structure, for all numeric contents at once): read_elast_data returns the reference volume, count, cell mass, every "
+             "row's volume, every component under its canonical Voigt key whatever prefix / case / 2- or 4-index spelling, and the lattice "
+             "block (or none); write_energy followed by read_energy returns the same counts, P/V/E and every frequency at its place.",
+        note="Outside: numeric precision of the written text and float() parsing themselves (C-level), q coordinates and weights are concrete "
+             "in the round trip (%-formatting realises them), the `cij fill` command's re-emission (pandas C parser / to_string), evec files.",
+        design="3/C17 (as built: A.4)"),
 }
 
 NOT_APPLICABLE = {
     "C14": "Quantifies over interpreter hash seeds, unrelated directory entries, process history and byte-identical files: "
            "environment, not values the code computes with; only differential re-execution can vary them and no faithful "
            "symbolic model of CPython hashing / the filesystem is within reach (DESIGN.md 3/C14).",
-    "C17": "Text-file parsing/formatting (open, float(), %f, pandas.read_table): every symbolic value is realised at the C "
-           "boundary; an SMT model of the parsers would verify the model, not the code (DESIGN.md 3/C17).",
 }
 
 IN_PROGRESS = "check not built yet in this round (planned in DESIGN.md section 3; will be claimed when its harness lands)"
